@@ -33,6 +33,124 @@ BODIES = [b"", b"<", b"<a>", b"</a>", b"<a></b>", b"<?xml version=\"1.0\"?>", b"
           b"<a>" * 3000, b"\x00" * 100, b"\xff" * 100, b"<RestoreRequest></RestoreRequest>", b"<SelectObjectContentRequest></SelectObjectContentRequest>",
           b"<CreateBucketConfiguration><LocationConstraint>x</LocationConstraint></CreateBucketConfiguration>", b"<CORSConfiguration></CORSConfiguration>"]
 
+# request documents by endpoint: (root, children) trees; a generated body keeps a random subset of the children, each empty, filled with a
+# nasty value, or recursively generated (so "present but empty" elements at every depth are reached)
+L = None
+SCHEMAS = {
+    "DeleteObjects": ("Delete", {"Quiet": L, "Object": {"Key": L, "VersionId": L}}),
+    "CompleteMultipartUpload": ("CompleteMultipartUpload", {"Part": {"PartNumber": L, "ETag": L, "ChecksumCRC32": L}}),
+    "PutObjectTagging": ("Tagging", {"TagSet": {"Tag": {"Key": L, "Value": L}}}),
+    "PutBucket?tagging": ("Tagging", {"TagSet": {"Tag": {"Key": L, "Value": L}}}),
+    "PutBucket?versioning": ("VersioningConfiguration", {"Status": L, "MfaDelete": L}),
+    "PutObjectLegalHold": ("LegalHold", {"Status": L}),
+    "PutObjectRetention": ("Retention", {"Mode": L, "RetainUntilDate": L}),
+    "PutBucket?object-lock": ("ObjectLockConfiguration", {"ObjectLockEnabled": L, "Rule": {"DefaultRetention": {"Days": L, "Years": L, "Mode": L}}}),
+    "PutObjectAcl": ("AccessControlPolicy", {"Owner": {"ID": L, "DisplayName": L}, "AccessControlList": {"Grant": {"Grantee": {"ID": L, "Type": L, "URI": L}, "Permission": L}}}),
+    "PutBucket?acl": ("AccessControlPolicy", {"Owner": {"ID": L, "DisplayName": L}, "AccessControlList": {"Grant": {"Grantee": {"ID": L, "Type": L, "URI": L}, "Permission": L}}}),
+    "PutBucket?ownershipControls": ("OwnershipControls", {"Rule": {"ObjectOwnership": L}}),
+    "RestoreObject": ("RestoreRequest", {"Days": L, "GlacierJobParameters": {"Tier": L}, "Type": L, "Tier": L, "Description": L, "SelectParameters": {"Expression": L},
+                                         "OutputLocation": {"S3": {"BucketName": L, "Prefix": L, "Encryption": {"EncryptionType": L}, "AccessControlList": {"Grant": {"Grantee": {"ID": L}}}}}}),
+    "SelectObjectContent": ("SelectObjectContentRequest", {"Expression": L, "ExpressionType": L, "RequestProgress": {"Enabled": L}, "ScanRange": {"Start": L, "End": L},
+                                                            "InputSerialization": {"CompressionType": L, "CSV": {"FileHeaderInfo": L, "FieldDelimiter": L}, "JSON": {"Type": L}, "Parquet": L},
+                                                            "OutputSerialization": {"CSV": {"QuoteFields": L}, "JSON": {"RecordDelimiter": L}}}),
+    "CreateBucket": ("CreateBucketConfiguration", {"LocationConstraint": L, "Bucket": {"Type": L}, "Location": {"Name": L, "Type": L}}),
+    "PutBucketCors": ("CORSConfiguration", {"CORSRule": {"AllowedMethod": L, "AllowedOrigin": L, "MaxAgeSeconds": L}}),
+    "admin:create-user": ("Account", {"Access": L, "Secret": L, "Role": L, "UserID": L, "GroupID": L}),
+    "admin:update-user": ("MutableProps", {"Secret": L, "UserID": L, "GroupID": L, "Role": L}),
+}
+XVALS = ["", "x", "-1", "0", "99999999999999999999", "true", "TRUE", "Enabled", "COMPLIANCE", "2030-01-01T00:00:00Z", "never", "CanonicalUser", "FULL_CONTROL", "root", "&lt;", "\u00fc"]
+
+
+def gen_xml(rnd, name, children, depth=0):
+    if children is None:
+        return "<%s>%s</%s>" % (name, rnd.choice(XVALS), name) if rnd.random() < 0.8 else "<%s/>" % name
+    r = rnd.random()
+    if r < 0.25 or depth > 5:
+        return "<%s></%s>" % (name, name)
+    if r < 0.30:
+        return "<%s>%s</%s>" % (name, rnd.choice(XVALS), name)
+    kids = [k for k in children if rnd.random() < 0.6] or [rnd.choice(list(children))]
+    out = ""
+    for k in kids:
+        for _ in range(rnd.choice([1, 1, 1, 2, 0])):
+            out += gen_xml(rnd, k, children[k], depth + 1)
+    return "<%s>%s</%s>" % (name, out, name)
+
+
+def path_docs(root, children):
+    """systematic: for every element of the document tree, the document that reaches it and leaves it empty / self-closed / ill-typed"""
+    out = []
+    def walk(prefix, name, ch):
+        for fill in ("<%s></%s>" % (name, name), "<%s/>" % name, "<%s>x</%s>" % (name, name), "<%s>-1</%s>" % (name, name)):
+            doc = fill
+            for p in reversed(prefix):
+                doc = "<%s>%s</%s>" % (p, doc, p)
+            out.append(doc)
+        if ch:
+            for k, v in ch.items():
+                walk(prefix + [name], k, v)
+    walk([], root, children)
+    return out
+
+
+def gen_json(rnd, depth=0):
+    r = rnd.random()
+    if depth > 3 or r < 0.3:
+        return rnd.choice([None, 5, "x", "*", "", True, "arn:aws:s3:::bk1/*", "s3:GetObject", "Allow", "Deny", [], {}])
+    if r < 0.5:
+        return [gen_json(rnd, depth + 1) for _ in range(rnd.randrange(3))]
+    return {k: gen_json(rnd, depth + 1) for k in rnd.sample(["Version", "Statement", "Effect", "Principal", "AWS", "Action", "Resource", "Sid", "Condition", "NotAction"], rnd.randrange(1, 5))}
+
+
+AUTH_DATES = ["", "2", "2026", "2026100", "20261001", "20261001T", "20261001T00000", "20261001T000000", "x" * 16, "99999999T999999Z", "00000000T000000Z", "20261001T000000Zjunk", " 20261001T000000Z"]
+
+
+def auth_tamper(rnd):
+    """a function applied to the headers after signing: one credential-carrying field leaves its grammar"""
+    kind = rnd.choice(["date", "date", "auth-part", "auth-part", "auth-whole", "sha", "host"])
+    if kind == "date":
+        v = rnd.choice(AUTH_DATES)
+        return "x-amz-date=%r" % v, lambda h: h.__setitem__("x-amz-date", v)
+    if kind == "sha":
+        v = rnd.choice(["", "x", "STREAMING-AWS4-HMAC-SHA256-PAYLOAD", "STREAMING-UNSIGNED-PAYLOAD-TRAILER", "STREAMING-AWS4-ECDSA-P256-SHA256-PAYLOAD", "UNSIGNED-PAYLOAD", "E3B0C44298FC1C149AFBF4C8996FB92427AE41E4649B934CA495991B7852B855", "0" * 63])
+        return "x-amz-content-sha256=%r" % v, lambda h: h.__setitem__("x-amz-content-sha256", v)
+    if kind == "host":
+        v = rnd.choice(["", "x", ":", "127.0.0.1:99999", "[::1", "a" * 300])
+        return "host=%r" % v[:20], lambda h: h.__setitem__("host", v)
+    if kind == "auth-whole":
+        v = rnd.choice(["", "AWS4-HMAC-SHA256", "AWS4-HMAC-SHA256 ", "AWS root:c2ln", "Bearer x", "AWS4-HMAC-SHA256 Credential=,SignedHeaders=,Signature=", "AWS4-HMAC-SHA256 Credential=root",
+                        "AWS4-HMAC-SHA256 Credential=root/20261001/us-east-1/s3/aws4_request, SignedHeaders=host, Signature=", "AWS4-HMAC-SHA256 " + ", " * 50, "AWS4-ECDSA-P256-SHA256 Credential=root/2/3/4/5, SignedHeaders=host, Signature=00",
+                        "AWS4-HMAC-SHA256 Credential=root/20261001/us-east-1/s3/aws4_request,SignedHeaders=host,Signature=" + "0" * 64, "AWS4-HMAC-SHA256 Signature=00, SignedHeaders=host, Credential=root/1/2/3/4",
+                        "AWS4-HMAC-SHA256 Credential=root/20261001/us-east-1/s3/aws4_request, SignedHeaders=host, Signature=" + "0" * 64 + ", Extra=1"])
+        return "authorization=%r" % v[:40], lambda h: h.__setitem__("Authorization", v)
+    sub = rnd.choice(["cred-short", "cred-long", "cred-empty-date", "cred-short-date", "cred-noslash", "signed-empty", "signed-unknown", "signed-dup", "sig-empty", "sig-short", "sig-nonhex", "sig-long", "no-space", "lowercase"])
+
+    def f(h):
+        a = h.get("Authorization", "")
+        m = re.match(r"(\S+) Credential=([^,]*), SignedHeaders=([^,]*), Signature=(.*)", a)
+        if not m:
+            return
+        alg, cred, sh, sig = m.groups()
+        parts = cred.split("/")
+        if sub == "cred-short": cred = "/".join(parts[:3])
+        elif sub == "cred-long": cred = cred + "/extra/more"
+        elif sub == "cred-empty-date": parts[1] = ""; cred = "/".join(parts)
+        elif sub == "cred-short-date": parts[1] = parts[1][:4]; cred = "/".join(parts)
+        elif sub == "cred-noslash": cred = parts[0]
+        elif sub == "signed-empty": sh = ""
+        elif sub == "signed-unknown": sh = sh + ";x-not-sent"
+        elif sub == "signed-dup": sh = sh + ";" + sh
+        elif sub == "sig-empty": sig = ""
+        elif sub == "sig-short": sig = sig[:5]
+        elif sub == "sig-nonhex": sig = "zz" + sig[2:]
+        elif sub == "sig-long": sig = sig * 40
+        elif sub == "lowercase": alg = alg.lower()
+        a = "%s Credential=%s, SignedHeaders=%s, Signature=%s" % (alg, cred, sh, sig)
+        if sub == "no-space": a = a.replace(", ", ",").replace(" ", "", 1)
+        h["Authorization"] = a
+    return "authorization:" + sub, f
+
+
 
 def well_formed(method, r):
     if r.status == -1:
@@ -67,6 +185,7 @@ def run(chk):
         chk.require(ok, "c20:setup", "scenario setup failed")
         logpath = os.path.join(site.base, "gw-%d.log" % g.port)
         panics_seen = 0
+        stuck = [0]
 
         def after(label, method, r, dt, detail):
             nonlocal g, cl, panics_seen
@@ -91,6 +210,9 @@ def run(chk):
                 chk.fail("c20:malformed-response:" + label.split(" ")[0], "%s -> %s" % (label, bad), row)
             if dt > 10:
                 chk.fail("c20:slow:" + label.split(" ")[0], "%s took %.1f s" % (label, dt), row)
+                stuck[0] += 1
+                # a gateway that stopped answering is reported once, not waited for on each of the remaining requests
+                chk.require(stuck[0] < 6, "c20:wedged", "six requests got no answer within 10 s; the last: %s" % label, row)
 
         # ---- corpus of former crashers and paging ties
         for i in range(5):
@@ -135,16 +257,44 @@ def run(chk):
                     luterms.append((km, int(mu) if mu else 1000, page, tr, nk, ni))
         # ---- grammar-based malformed requests
         eps = c02.endpoints(uid)
+        eps.append(("SelectObjectContent", "POST", "/bk1/obj", {"select": "", "select-type": "2"},
+                    b"<SelectObjectContentRequest><Expression>select * from s3object</Expression><ExpressionType>SQL</ExpressionType></SelectObjectContentRequest>", {}))
+        with_schema = [e for e in eps if e[0] in SCHEMAS or e[0] == "PutBucket?policy"]
+        for name, method, path, query, body, headers in with_schema:
+            if name not in SCHEMAS:
+                continue
+            for doc in path_docs(*SCHEMAS[name]):
+                for extra in (b"", body[body.find(b">") + 1:body.rfind(b"<")] if body.count(b"<") > 2 else b""):
+                    d = doc.encode()
+                    if extra:
+                        # the same element next to the endpoint's valid content
+                        cut = d.find(b">") + 1 if not d.endswith(b"/>") or d.count(b"<") > 1 else None
+                        if cut is None or d[:cut].endswith(b"/>"):
+                            continue
+                        d = d[:cut] + extra + d[cut:]
+                    t0 = time.time(); r = cl.req(method, path, query=query, body=d, headers=headers, timeout=15); dt = time.time() - t0
+                    label = "%s body %s" % (name, d.decode()[:300])
+                    chk.case((name, d), True); chk.count("bodytree:%s:%dxx" % (method, r.status // 100 if r.status > 0 else 0))
+                    after(label, method, r, dt, {"method": method, "path": path, "query": query, "body": d.decode()})
         for i in range(n_fuzz):
-            name, method, path, query, body, headers = rnd.choice(eps)
+            name, method, path, query, body, headers = rnd.choice(with_schema) if rnd.random() < 0.25 else rnd.choice(eps)
             query, headers = dict(query), dict(headers)
             muts = []
+            tamper = None
             for _ in range(rnd.choice([1, 1, 2, 3])):
                 kind = rnd.random()
-                if kind < 0.40:
+                if kind < 0.15:
+                    what, tamper = auth_tamper(rnd); muts.append("auth " + what)
+                elif kind < 0.30 and (name in SCHEMAS or name == "PutBucket?policy"):
+                    if name == "PutBucket?policy":
+                        body = json.dumps(gen_json(rnd)).encode()
+                    else:
+                        body = gen_xml(rnd, *SCHEMAS[name]).encode()
+                    muts.append("generated body %r" % body[:300])
+                elif kind < 0.50:
                     k = rnd.choice(QUERY_KEYS + list(query.keys())) if rnd.random() < 0.8 else rnd.choice(NASTY[10:20])
                     v = rnd.choice(NASTY); query[k] = v; muts.append("query %s=%r" % (k, v[:20]))
-                elif kind < 0.70:
+                elif kind < 0.75:
                     k = rnd.choice(HEADER_KEYS); v = rnd.choice(NASTY)
                     v = "".join(ch for ch in v if ch not in "\r\n\x00") or "x"
                     headers[k] = v.encode("utf-8", "replace").decode("latin1") if any(ord(c) > 255 for c in v) else v
@@ -165,7 +315,7 @@ def run(chk):
                                             payload_type=rnd.choice(["STREAMING-UNSIGNED-PAYLOAD-TRAILER", "STREAMING-AWS4-HMAC-SHA256-PAYLOAD", "STREAMING-AWS4-HMAC-SHA256-PAYLOAD-TRAILER"]))
                     label += "; malformed chunk stream %r" % bad_stream[:16]
                 else:
-                    r = cl.req(method, path, query=query, body=body, headers=headers, sign=not unauth, timeout=15)
+                    r = cl.req(method, path, query=query, body=body, headers=headers, sign=not unauth, timeout=15, tamper=None if unauth else tamper)
             except Exception as e:
                 chk.count("client-refused")
                 continue
